@@ -440,4 +440,130 @@ class LiteralOffset(Harness):
 def harnesses(tier):
     if parsed_fields() is None:
         return []
-    return [NumericElements(), Seconds(), Offset(), LiteralOffset()]
+    return [NumericElements(), Seconds(), Offset(), LiteralOffset(), LiteralTimeOnly()]
+
+
+# --------------------------------------------------------------------------------------------------------------
+# A literal that gives only a time of day and an offset: "today" is today *in that offset*.
+
+def _stub_to_naive_time(ex, nc, args):
+    p = deref_all(args[0])
+    f = parsed_fields()
+
+    def fld(n):
+        v = deref_all(p.fields[f.index(n)])
+        return v.fields[0] if v.variant == 1 else None
+    hd, hm, mi = fld('hour_div_12'), fld('hour_mod_12'), fld('minute')
+    if hd is None or hm is None or mi is None:
+        return ex.make_variant('Result', 'Err', [Opaque('ParseError', 'NotEnough')])
+    se = fld('second')
+    # chrono: hour_div_12 in 0..=1, hour_mod_12 in 0..=11, minute in 0..=59, second in 0..=60, else OUT_OF_RANGE
+    okr = z3.And(zint(hd) >= 0, zint(hd) <= 1, zint(hm) >= 0, zint(hm) <= 11, zint(mi) >= 0, zint(mi) <= 59)
+    if se is not None:
+        okr = z3.And(okr, zint(se) >= 0, zint(se) <= 60)
+    if not ex.branch(okr, 'time fields in range'):
+        return ex.make_variant('Result', 'Err', [Opaque('ParseError', 'OutOfRange')])
+    ns = (zint(hd) * 12 + zint(hm)) * 3600 * 10 ** 9 + zint(mi) * 60 * 10 ** 9 + (zint(se) * 10 ** 9 if se is not None else 0)
+    return ex.make_variant('Result', 'Ok', [Struct('NaiveTime', [ns])])
+
+
+class LiteralTimeOnly(Harness):
+    name = 'datetime.attempt.time_only_literal'
+    props = ('C14',)
+    entry = 'parsing::datetime::attempt'
+    loop_bound = 30
+    describe = ('attempt() on the pattern `hour24:min offset` (no date) with symbolic digits and an arbitrary `now`: the instant has the time of day '
+                'that was written, in the offset that was written, on the calendar day that `now` falls on in that offset')
+    bounds = ['chrono by contract (day = floor((instant + offset) / 24 h)); offsets +hh:mm within +-24 h; now in an arbitrary zone']
+    expect_classes = ['Result::Ok', 'Result::Err']
+    _concrete = None
+    stubs = ((r'^Parsed::new$', _stub_parsed_new, 'chrono Parsed::new -> all fields None'),
+             (r'^Parsed::to_naive_time$', _stub_to_naive_time, 'chrono Parsed::to_naive_time -> the time of day the fields spell'),
+             (r'^Parsed::to_naive_date$', lambda ex, nc, a: ex.make_variant('Result', 'Err', [Opaque('ParseError', 'NotEnough')]), 'chrono Parsed::to_naive_date -> Err (no date fields)'),
+             (r'^Parsed::to_fixed_offset$', _stub_to_fixed_offset, 'chrono Parsed::to_fixed_offset -> its documented contract'))
+
+    def build(self, ex, I):
+        hs, hh = digits(ex, I, 't', 2)
+        ms, mm = digits(ex, I, 'u', 2)
+        os_, oh = digits(ex, I, 'h', 2)
+        om_, om = digits(ex, I, 'm', 2)
+        sign = [1, -1][ex.choose(2, 'sign')]
+        T = lambda k, f=(): variant(ex, 'DateToken', k, list(f))
+        toks = [T('Number', [SymStr(hs), none(ex)]), T('Colon'), T('Number', [SymStr(ms), none(ex)]), T('Space'),
+                T('Plus' if sign == 1 else 'Dash'), T('Number', [SymStr(os_), none(ex)]), T('Colon'), T('Number', [SymStr(om_), none(ex)])]
+        P = lambda k, f=(): variant(ex, 'DatePattern', k, list(f))
+        pat = Arr([P('Match', ['hour24']), P('Colon'), P('Match', ['min']), P('Space'), P('Match', ['offset'])])
+        now_i = I.int('now_ns')
+        now_off = I.int('local_off_s')
+        ex.assume(z3.And(now_off > -86400, now_off < 86400, now_i > -10 ** 18, now_i < 10 ** 18))
+        now = mk_datetime(now_i, Struct('FixedOffset', [now_off]))      # the context's clock in its local zone
+        return [now, ref(Arr(toks)), ref(pat)], {'hh': hh, 'mm': mm, 'oh': oh, 'om': om, 'sign': sign, 'now': now_i}
+
+    def post(self, ex, ctx, outcome):
+        r = deref_all(outcome[1])
+        hh, mm, oh, om, sign, now = (ctx[k] for k in ('hh', 'mm', 'oh', 'om', 'sign', 'now'))
+        off = sign * (oh * 3600 + om * 60)
+        valid = z3.And(hh <= 23, mm <= 59, om <= 59, off > -86400, off < 86400)
+        if is_err(r):
+            return [('a well-formed time with a valid offset is accepted', z3.Not(valid))]
+        g = deref_all(payload(r))
+        if not (isinstance(g, Enum) and g.vname == 'Fixed'):
+            return [('a numeric offset yields a fixed-offset instant', False)]
+        dt = deref_all(g.fields[0])
+        inst, zone = dt.fields[0], deref_all(dt.fields[1])
+        DAY = 86400 * 10 ** 9
+        offn = off * 10 ** 9
+        local = zint(inst) + offn
+        tod = (hh * 3600 + mm * 60) * 10 ** 9
+        return [('accepted only when time and offset are valid', valid),
+                ('the instant carries the offset that was written', zint(zone.fields[0]) == off),
+                ('its time of day in that offset is the one written', local % DAY == tod),
+                ('its calendar day is the day `now` falls on in that offset', local / DAY == (zint(now) + offn) / DAY)]
+
+    def case(self, ctx, vals, label):
+        c = Harness.case(self, ctx, vals, label)
+        c['inputs']['sign'] = ctx['sign']
+        return c
+
+    def prefer(self, ctx):
+        return [ctx['now'] == 1470180600 * 10 ** 9, ctx['hh'] == 1, ctx['mm'] == 0, ctx['oh'] == 5, ctx['om'] == 0]
+
+    def _text(self, inputs):
+        g = lambda t: ''.join(chr(int(inputs['%s%d' % (t, i)])) for i in range(2))
+        return '%s:%s %s%s:%s' % (g('t'), g('u'), '+' if int(inputs['sign']) > 0 else '-', g('h'), g('m'))
+
+    def native(self, inputs, label):
+        import datetime as _dt
+        now = int(inputs.get('now_ns', 0)) // 10 ** 9
+        now = max(min(now, 4 * 10 ** 9), 0)
+        iso = _dt.datetime.fromtimestamp(now, _dt.timezone.utc).strftime('%Y-%m-%dT%H:%M:%S+00:00')
+        return [{'mode': 'query', 'now': iso, 'text': '#%s#' % self._text(inputs)},
+                {'mode': 'query', 'now': '2016-08-02T23:30:00+00:00', 'text': '#01:00 +05:00#'},
+                {'mode': 'query', 'now': '2016-08-02T00:30:00+00:00', 'text': '#20:00 -08:00#'}]
+
+    def judge(self, inputs, label, obs):
+        import datetime as _dt
+        bad = []
+        now = max(min(int(inputs.get('now_ns', 0)) // 10 ** 9, 4 * 10 ** 9), 0)
+        cases = [(now, self._text(inputs)), (1470180600, '01:00 +05:00'), (1470097800, '20:00 -08:00')]
+        for (n, t), o in zip(cases, obs):
+            if o.get('outcome') == 'panic' or o.get('render_panic'):
+                bad.append('`#%s#` panics: %s' % (t, o.get('panic') or o.get('render_panic')))
+                continue
+            m = re.match(r'^(\d\d):(\d\d) ([+-])(\d\d):(\d\d)$', t)
+            hh, mm, sg, oh, om = int(m.group(1)), int(m.group(2)), (1 if m.group(3) == '+' else -1), int(m.group(4)), int(m.group(5))
+            off = sg * (oh * 3600 + om * 60)
+            if hh > 23 or mm > 59 or om > 59 or abs(off) >= 86400:
+                continue
+            day = (n + off) // 86400
+            want = day * 86400 + hh * 3600 + mm * 60 - off
+            j = o.get('json') or {}
+            got = j.get('rfc3339')
+            if o.get('outcome') != 'ok' or not got:
+                bad.append('`#%s#` at now=%d: %s' % (t, n, o.get('display')))
+                continue
+            ts = int(_dt.datetime.fromisoformat(got).timestamp())
+            if ts != want:
+                bad.append('`#%s#` with the clock at %s UTC denotes %s, expected the instant %s UTC' % (
+                    t, _dt.datetime.fromtimestamp(n, _dt.timezone.utc).isoformat(), got, _dt.datetime.fromtimestamp(want, _dt.timezone.utc).isoformat()))
+        return bool(bad), '; '.join(bad[:2]) or 'time-only literals denote today in their own offset'
